@@ -56,7 +56,7 @@ func (b *Block) Key() string {
 
 func (b *Block) QName() string { return b.PkgName + "." + b.Key() }
 
-var clauseKW = []string{"requires", "ensures", "loop", "split", "opaque", "prop", "decreases", "modifies", "assume", "inline", "nooverlay", "unsafe-ok", "havoc", "using", "trusted", "known", "reveal", "forall", "use"}
+var clauseKW = []string{"requires", "ensures", "loop", "split", "opaque", "prop", "decreases", "modifies", "assume", "inline", "nooverlay", "unsafe-ok", "havoc", "using", "trusted", "known", "reveal", "forall", "use", "inline"}
 var blockKW = []string{"opaque spec func", "spec func", "lemma", "func", "assume-dep", "iface", "ghost"}
 
 func startsWithKW(s string, kws []string) string {
@@ -523,6 +523,21 @@ func existsRange[T specInteger](lo, hi T, f func(T) bool) bool {
 }
 
 func old[T any](x T) T { return x }
+
+// sameEntries: the two maps return the same value for every key (absent == zero value).
+func sameEntries[K comparable, V comparable](a, b map[K]V) bool {
+	for k, v := range a {
+		if b[k] != v {
+			return false
+		}
+	}
+	for k, v := range b {
+		if a[k] != v {
+			return false
+		}
+	}
+	return true
+}
 
 // allocated(p): p is a non-nil reference to an object allocated before (heap classes only).
 func allocated[T any](p *T) bool { return p != nil }
